@@ -124,6 +124,9 @@ EkuCheck ==
        ELSE /\ phase' = "parse"
             /\ UNCHANGED <<plan, fi, need, avail, pk, enabled, ident, pending, sent, calls, asked>>
 
+\* Decodable = the framing of the request is consistent (utils.verify_ttlv_framing: every item inside its parent, structures
+\* filled exactly, mandated lengths of fixed-size types), the decoder accepts it AND consumes all of it.  Anything else is
+\* answered Invalid Message under version 1.0 without entering authentication or the engine.
 Parse ==
     /\ phase = "parse"
     /\ IF ~Decodable(Frame.kind) THEN Refuse("InvalidMessage10")
